@@ -6,15 +6,16 @@ import (
 	"math"
 	"math/big"
 	"strings"
+	. "verifharness/hlib"
 
 	"github.com/itchyny/gojq"
 )
 
-func init() { register("c10", runC10) }
+func main() { Register("c10", runC10); Main() }
 
 // boundary integers: 0, ±1, ±2^k, ±2^k±1 (k<=130), MinInt64/MaxInt64 neighbours, sqrt(2^63) neighbours,
 // random 1..40-digit integers
-func c10Ints(r *rng, nrand int) []*big.Int {
+func c10Ints(r *Rng, nrand int) []*big.Int {
 	var xs []*big.Int
 	add := func(x *big.Int) { xs = append(xs, new(big.Int).Set(x), new(big.Int).Neg(x)) }
 	add(big.NewInt(0))
@@ -31,11 +32,11 @@ func c10Ints(r *rng, nrand int) []*big.Int {
 		add(new(big.Int).Add(big.NewInt(4294967296), big.NewInt(d)))
 	}
 	for i := 0; i < nrand; i++ {
-		nd := 1 + r.intn(40)
+		nd := 1 + r.Intn(40)
 		var sb strings.Builder
-		sb.WriteByte(byte('1' + r.intn(9)))
+		sb.WriteByte(byte('1' + r.Intn(9)))
 		for j := 1; j < nd; j++ {
-			sb.WriteByte(byte('0' + r.intn(10)))
+			sb.WriteByte(byte('0' + r.Intn(10)))
 		}
 		x, _ := new(big.Int).SetString(sb.String(), 10)
 		add(x)
@@ -72,9 +73,9 @@ func c10Result(v any) string {
 		case strings.HasPrefix(msg, "cannot divide ") && strings.Contains(msg, " by: "):
 			return "zerodiv"
 		}
-		return sexpVal(v)
+		return SexpVal(v)
 	}
-	return sexpVal(v)
+	return SexpVal(v)
 }
 
 func c10Compile(src string, vars ...string) *gojq.Code {
@@ -110,8 +111,8 @@ func c10Core() []*big.Int {
 	return xs
 }
 
-func runC10(c *ctx) {
-	ints := c10Ints(c.rng, 40)
+func runC10(c *Ctx) {
+	ints := c10Ints(c.Rng, 40)
 	ops := []struct{ name, src string }{{"add", "$a + $b"}, {"sub", "$a - $b"}, {"mul", "$a * $b"}, {"div", "$a / $b"}, {"mod", "$a % $b"}}
 	codes := map[string]*gojq.Code{}
 	for _, o := range ops {
@@ -121,13 +122,13 @@ func runC10(c *ctx) {
 	abs := c10Compile("$a|abs", "$a")
 	length := c10Compile("$a|length", "$a")
 	// pairs: quick = sampled pairs; thorough = all pairs
-	npairs := c.n
+	npairs := c.N
 	total := len(ints) * len(ints)
 	pick := func(i int) (int, int) {
 		if npairs >= total {
 			return i / len(ints), i % len(ints)
 		}
-		return c.rng.intn(len(ints)), c.rng.intn(len(ints))
+		return c.Rng.Intn(len(ints)), c.Rng.Intn(len(ints))
 	}
 	if npairs > total {
 		npairs = total
@@ -136,7 +137,7 @@ func runC10(c *ctx) {
 	// explicit pairs (search candidates "l:r") and the all-pairs core of int64 boundary values come first
 	type pr struct{ a, b *big.Int }
 	var pairs []pr
-	for _, s := range c.args {
+	for _, s := range c.Args {
 		if l, r, ok := strings.Cut(s, ":"); ok {
 			x, ok1 := new(big.Int).SetString(l, 10)
 			y, ok2 := new(big.Int).SetString(r, 10)
@@ -145,14 +146,14 @@ func runC10(c *ctx) {
 			}
 		}
 	}
-	if len(c.args) == 0 {
+	if len(c.Args) == 0 {
 		core := c10Core()
 		for _, a := range core {
 			for _, b := range core {
 				pairs = append(pairs, pr{a, b})
 			}
 		}
-		c.stats["core_values"] = len(core)
+		c.Stats["core_values"] = len(core)
 		for i := 0; i < npairs; i++ {
 			ai, bi := pick(i)
 			pairs = append(pairs, pr{ints[ai], ints[bi]})
@@ -167,31 +168,31 @@ func runC10(c *ctx) {
 			for _, rb := range c10Reps(b) {
 				for _, o := range ops {
 					res := c10Run1(codes[o.name], nil, ra, rb)
-					c.emit("(binop %s %s %s %s)", o.name, sexpVal(ra), sexpVal(rb), c10Result(res))
-					c.count("binop:" + o.name)
+					c.Emit("(binop %s %s %s %s)", o.name, SexpVal(ra), SexpVal(rb), c10Result(res))
+					c.Count("binop:" + o.name)
 					evals++
 				}
-				c.emit("(cmp %s %s %d)", sexpVal(ra), sexpVal(rb), gojq.Compare(ra, rb))
-				c.count("cmp")
+				c.Emit("(cmp %s %s %d)", SexpVal(ra), SexpVal(rb), gojq.Compare(ra, rb))
+				c.Count("cmp")
 				evals++
 			}
 		}
 	}
 	for _, a := range ints {
 		for _, ra := range c10Reps(a) {
-			c.emit("(neg %s %s)", sexpVal(ra), c10Result(c10Run1(neg, nil, ra)))
-			c.emit("(abs %s %s)", sexpVal(ra), c10Result(c10Run1(abs, nil, ra)))
-			c.emit("(abs %s %s)", sexpVal(ra), c10Result(c10Run1(length, nil, ra)))
+			c.Emit("(neg %s %s)", SexpVal(ra), c10Result(c10Run1(neg, nil, ra)))
+			c.Emit("(abs %s %s)", SexpVal(ra), c10Result(c10Run1(abs, nil, ra)))
+			c.Emit("(abs %s %s)", SexpVal(ra), c10Result(c10Run1(length, nil, ra)))
 			bs, err := gojq.Marshal(ra)
 			if err != nil {
-				c.violation("Marshal(%v) error %v", ra, err)
+				c.Violation("Marshal(%v) error %v", ra, err)
 			}
-			c.emit("(enc %s %s)", sexpVal(ra), hexs(bs))
-			c.count("unary")
+			c.Emit("(enc %s %s)", SexpVal(ra), Hexs(bs))
+			c.Count("unary")
 			evals += 4
 		}
 	}
-	c.stats["operands"] = len(ints)
-	c.stats["evaluations"] = evals
-	c.stats["pairs"] = npairs
+	c.Stats["operands"] = len(ints)
+	c.Stats["evaluations"] = evals
+	c.Stats["pairs"] = npairs
 }
